@@ -502,7 +502,7 @@ impl WhenCalledBuilder<'_> {
     /// ```
     pub fn will_return_boolean(self, value: bool) {
         // Ensure the target function returns a bool
-        if !self.expected_signature.trim().ends_with("-> bool") {
+        if !returns_bool(self.expected_signature) {
             panic!(
                 "Signature mismatch: will_return_boolean requires a function returning bool but got {}",
                 self.expected_signature
@@ -512,6 +512,33 @@ impl WhenCalledBuilder<'_> {
         let guard = self.when.will_return_boolean_guard(value);
         self.lib.guards.push(guard);
     }
+}
+
+/// Tells whether a function-pointer type name (as rendered by `std::any::type_name`) denotes a
+/// function whose own return type is `bool`. Looking only at how the text ends is not enough:
+/// `fn() -> fn() -> bool` ends in `-> bool` but returns a function pointer.
+fn returns_bool(signature: &str) -> bool {
+    let sig = signature.trim();
+    // The parameter list opens at the first `fn(` and closes at the matching parenthesis;
+    // whatever follows is the return type of the function itself.
+    let open = match sig.find("fn(") {
+        Some(i) => i + 2,
+        None => return false,
+    };
+    let mut depth = 0usize;
+    for (i, c) in sig[open..].char_indices() {
+        match c {
+            '(' => depth += 1,
+            ')' => {
+                depth -= 1;
+                if depth == 0 {
+                    return sig[open + i + 1..].trim() == "-> bool";
+                }
+            }
+            _ => {}
+        }
+    }
+    false
 }
 
 pub struct WhenCalledBuilderAsync<'a> {
